@@ -171,8 +171,23 @@ func c10Doc(c *explore.Ctx, s *explore.SubStats, d kitDoc) {
 	}
 	// re-validation of the already validated tree (checked under the ascending policy)
 	verifhook.OrderPolicy, verifhook.Perm = 0, nil
-	if first := run(); again != first {
+	first := run()
+	if again != first {
 		bad("nondet/revalidation "+c10Template(first, again), "validating the same parsed document a second time gives a different error list", first, again)
+	}
+	if strings.Count(first, "\n") >= 2 {
+		// the default rule set after every rule was registered again under its own name
+		// (ReplaceRule keeps a rule's place): same errors, same order
+		regReset()
+		for _, r := range c18Standard {
+			validator.ReplaceRule(r.Name, r.RuleFunc)
+		}
+		after := run()
+		regReset()
+		s.Transitions++
+		if after != first {
+			bad("nondet/after-replace-rule "+c10Template(first, after), "after ReplaceRule of every rule by itself the same document gets a different error list", first, after)
+		}
 	}
 	s.Sample(func() any { return d })
 }
